@@ -173,12 +173,50 @@ def expected_daily(case, days, hours, meter, temp):
     return exp, dict(n_days_total=n_total, first=dstr[first], last=dstr[last], valid_both=cnt(both), valid_meter=cnt(obs_valid), valid_temp=cnt(temp_cov_ok))
 
 
+def gen_billing(rng: random.Random):
+    tz = rng.choice(ZONES)
+    start = pd.Timestamp(rng.choice(["2021-01-05", "2020-11-17", "2021-03-02"]), tz=tz)
+    n = rng.choice([11, 12, 13])
+    lens = [rng.choice([28, 29, 30, 31, 32, 33]) for _ in range(n)]
+    if rng.random() < 0.3:
+        lens[rng.randrange(n)] = rng.choice([12, 40])          # an off-cycle period
+    return dict(kind="billing", style=rng.choice(["perfect", "temp_block", "temp_scattered", "missing_bill"]), tz=tz, start=start.isoformat(),
+                lens=lens, baseline=rng.random() < 0.7, electric=rng.random() < 0.6, k=rng.choice([20, 36, 37, 38, 60]))
+
+
+def build_billing(case):
+    from opendsm.eemeter.models.billing.data import BillingBaselineData, BillingReportingData
+    tz = case["tz"]
+    start = pd.Timestamp(case["start"]).tz_convert(tz)
+    dates = [start]
+    for L in case["lens"]:
+        dates.append((dates[-1].tz_localize(None) + pd.Timedelta(days=L)).tz_localize(tz))
+    vals = [300.0 + 10 * i for i in range(len(case["lens"]))] + [np.nan]
+    if case["style"] == "missing_bill":
+        vals[len(vals) // 2] = np.nan
+    meter = pd.Series(vals, index=pd.DatetimeIndex(dates), name="observed")
+    hours = pd.date_range(dates[0], dates[-1], freq="h")
+    temp = pd.Series(50.0 + (np.arange(len(hours)) % 24), index=hours, name="temperature")
+    r = random.Random(case["k"])
+    if case["style"] == "temp_block":
+        i0 = r.randrange(24 * 20, len(hours) - 24 * 70)
+        temp.iloc[i0:i0 + 24 * case["k"]] = np.nan
+    elif case["style"] == "temp_scattered":
+        for d in r.sample(range(5, len(hours) // 24 - 5), case["k"]):
+            temp.iloc[24 * d:24 * d + 24] = np.nan
+    cls = BillingBaselineData if case["baseline"] else BillingReportingData
+    CAPTURED.clear()
+    data = quiet(cls.from_series, meter, temp, is_electricity_data=case["electric"])
+    return data
+
+
 def gen_hourly(rng: random.Random):
     tz = rng.choice(ZONES)
     n_days = rng.choice([329, 340, 365])
     start = pd.Timestamp(rng.choice(["2021-01-01", "2021-03-01", "2020-11-10"]), tz=tz)
-    style = rng.choice(["perfect", "month_edge_temp", "month_edge_obs", "scattered"])
-    return dict(kind="hourly", tz=tz, start=start.isoformat(), n_days=n_days, style=style, baseline=rng.random() < 0.7,
+    style = rng.choice(["perfect", "month_edge_temp", "month_edge_obs", "scattered", "temp_only", "usage_20pct_missing", "usage_5pct_missing"])
+    baseline = rng.random() < 0.6 and style != "temp_only"
+    return dict(kind="hourly", tz=tz, start=start.isoformat(), n_days=n_days, style=style, baseline=baseline,
                 electric=rng.random() < 0.6, k=rng.choice([70, 71, 72, 73, 74, 75]), at_start=rng.random() < 0.5,
                 month_pick=rng.randrange(1, 9))
 
@@ -206,20 +244,42 @@ def build_hourly(case):
         r = random.Random(case["k"])
         for i in r.sample(range(10, len(idx) - 10), 400):
             temp.iloc[i] = np.nan
+    elif case["style"] in ("usage_20pct_missing", "usage_5pct_missing"):
+        step = 5 if case["style"] == "usage_20pct_missing" else 20
+        obs.iloc[np.arange(7, len(idx) - 7, step)] = np.nan
     cls = HourlyBaselineData if case["baseline"] else HourlyReportingData
     CAPTURED.clear()
-    data = quiet(cls, pd.concat([obs, temp], axis=1), is_electricity_data=case["electric"])
+    if case["style"] == "temp_only":
+        obs[:] = np.nan
+        data = quiet(cls, temp.to_frame(), is_electricity_data=case["electric"])
+    else:
+        data = quiet(cls, pd.concat([obs, temp], axis=1), is_electricity_data=case["electric"])
     return data, idx, obs, temp
 
 
 def expected_hourly(case, idx, obs, temp):
-    """monthly coverage by LOCAL calendar month of each hour; other clauses as for daily, hour by hour"""
+    """the published criteria hour by hour; months are LOCAL calendar months.  Reporting data is judged on temperature alone
+    (meter data is optional for the reporting classes)."""
     exp = set()
     tp = temp.notna().values
     op = obs.notna().values
-    complete = tp & op if case["baseline"] else (tp & op if op.any() else tp)
+    base = case["baseline"]
+    complete = (tp & op) if base else tp
     if not complete.any():
         return {P + "no_data"}, None
+    wall = idx.tz_localize(None)
+    first, last = int(np.argmax(complete)), len(complete) - 1 - int(np.argmax(complete[::-1]))
+    n_total = (wall[last] - wall[first]).days + 1
+    hours = lambda m: int(np.sum(m[:-1])) // 24            # every row counts 1/24 day, the last row none; int() floors
+    both = (tp & op) if base else tp
+    if base and (n_total > 365 or n_total < 329):
+        exp.add(P + "incorrect_number_of_total_days")
+    if 10 * hours(both) < 9 * n_total:
+        exp.add(P + "too_many_days_with_missing_data")
+    if base and 10 * hours(op) < 9 * n_total:
+        exp.add(P + "too_many_days_with_missing_meter_data")
+    if 10 * hours(tp) < 9 * n_total:
+        exp.add(P + "too_many_days_with_missing_temperature_data")
     months = {}
     for t, a, b in zip(idx, tp, op):
         m = months.setdefault(t.month, [0, 0, 0])
@@ -228,9 +288,9 @@ def expected_hourly(case, idx, obs, temp):
         m[2] += int(b)
     if any(10 * m[1] < 9 * m[0] for m in months.values()):
         exp.add(P + "missing_monthly_temperature_data")
-    if case["baseline"] and any(10 * m[2] < 9 * m[0] for m in months.values()):
+    if base and any(10 * m[2] < 9 * m[0] for m in months.values()):
         exp.add(P + "missing_monthly_meter_data")
-    return exp, dict(months={k: v for k, v in months.items() if 10 * min(v[1], v[2]) < 9 * v[0] + 40})
+    return exp, dict(n_days_total=n_total, valid_both=hours(both), valid_meter=hours(op), valid_temp=hours(tp))
 
 
 # --------------------------------------------------------------------------- frame -> model rows
@@ -266,10 +326,14 @@ def one_case(case, res, sigs, lines, metas):
             data, days, hours, meter, temp = build_daily(case)
             exp, info = expected_daily(case, days, hours, meter, temp)
             compare_names = None
+        elif case["kind"] == "billing":
+            # billing frames: verdict function vs the real BillingSufficiencyCriteria on the captured frame (correspondence only)
+            data = build_billing(case)
+            exp, info, compare_names = set(), None, set()
         else:
             data, idx, obs, temp = build_hourly(case)
             exp, info = expected_hourly(case, idx, obs, temp)
-            compare_names = {P + "missing_monthly_temperature_data", P + "missing_monthly_meter_data", P + "no_data"}
+            compare_names = None
     except Exception as e:  # noqa
         res["oracle_failures"].append(dict(case=small, clause="accepted", detail=dict(error=f"{type(e).__name__}: {e}"[:300])))
         return
@@ -290,7 +354,8 @@ def one_case(case, res, sigs, lines, metas):
         if case["n"] // 2 not in case["miss_obs"]:
             res["oracle_failures"].append(dict(case=small, clause="extreme_values_are_a_warning", detail=dict(warnings=sorted(warn))))
     for cap in CAPTURED[-1:]:
-        lines.append(" ".join(["suff", cap["family"], "1" if cap["reporting"] else "0", "1" if cap["electric"] else "0"] + frame_rows(cap)))
+        lines.append(" ".join(["suff", cap["family"], "1" if cap["which"] == "check_sufficiency_reporting" else "0",
+                               "1" if cap["reporting"] else "0", "1" if cap["electric"] else "0"] + frame_rows(cap)))
         metas.append((small, cap["dq"], cap["n_days_total"]))
 
 
@@ -307,7 +372,7 @@ def run(ctx):
         one_case(case, res, sigs, lines, metas)
     n = int((44 if not thorough else 700) * scale)
     for i in range(n):
-        case = gen_hourly(rng) if i % 11 == 10 else gen_daily(rng)
+        case = gen_hourly(rng) if i % 11 == 10 else (gen_billing(rng) if i % 11 in (4, 8) else gen_daily(rng))
         one_case(case, res, sigs, lines, metas)
         if len(res["samples"]) < 3:
             res["samples"].append(case)
@@ -361,4 +426,4 @@ LEVEL_NOTE = ("Hand model of sufficiency_criteria.py; the reduction of a frame r
 TECHNIQUE = "Lean 4 proof (membership iff criterion for every disqualification, exact rational thresholds) + differential correspondence with the sufficiency classes"
 ASSUMPTIONS = ["n_valid/float(n_total) < 0.9 agrees with the exact comparison for n_total <= 10^6 (argued in DESIGN.md, exercised at the thresholds)",
                "requested_start / requested_end are not passed by the data classes and are not modelled",
-               "hourly oracle covers the monthly clauses only (the others are shared code, covered on daily frames)"]
+               "hourly frames: interpolated hours count as missing (the sufficiency frame blanks them), as in the class"]
